@@ -25,9 +25,54 @@ import (
 // TArg describes a tensor argument: a library tensor of a shape, the nil interface, or a
 // foreign implementation of the Tensor interface defined in this harness.
 type TArg struct {
-	Kind  int   `json:"kind"` // 0 library tensor, 1 nil, 2 foreign implementation
+	// Kind: 0 library tensor, 1 nil, 2 foreign implementation, 3 the very tensor object that
+	// precedes it in the call (the receiver, or the previous tensor argument); Shape then
+	// repeats that tensor's shape
+	Kind  int   `json:"kind"`
 	Shape []int `json:"shape"`
 	Grad  bool  `json:"grad,omitempty"` // give it a gradient first (SGD.Update)
+	// Life: where in its life the tensor is when it is passed (lifeTensor)
+	Life int `json:"life,omitempty"`
+}
+
+// isLib: the argument is a library tensor (a fresh one or an alias of the preceding one).
+func (a TArg) isLib() bool { return a.Kind == 0 || a.Kind == 3 }
+
+// lifeTensor builds a library tensor of the given shape at a point of its life:
+//   0 fresh leaf                     1 result of an operation on a fresh leaf
+//   2 spent (back-propagated through) 3 computed from a spent tensor
+//   4 computed from a spent tensor, then ResetGradContext(tracked)
+//   5 spent, then ResetGradContext(tracked)
+// What a call accepts and the shape it returns do not depend on this.
+func lifeTensor(shape []int, tracked bool, life int) tensor.Tensor {
+	if life <= 0 || life > 5 {
+		return mkTensor(shape, tracked)
+	}
+	if life == 1 {
+		return mkTensor(shape, tracked).Scale(1)
+	}
+	x := mkTensor(shape, true)
+	if err := tensor.BackPropagate(x.Scale(2)); err != nil {
+		panic("harness: " + err.Error())
+	}
+	switch life {
+	case 3:
+		return x.Scale(1)
+	case 4:
+		y := x.Scale(1)
+		y.ResetGradContext(tracked)
+		return y
+	case 5:
+		x.ResetGradContext(tracked)
+	}
+	return x
+}
+
+func drawLife(t *rapid.T) int {
+	if rapid.IntRange(0, 2).Draw(t, "lifeplain") > 0 {
+		return 0
+	}
+	return rapid.IntRange(1, 5).Draw(t, "life")
 }
 
 // C09Case is one call of one public entry point with arbitrary arguments.
@@ -72,13 +117,27 @@ func (a TArg) build() tensor.Tensor {
 	case 2:
 		return foreignTensor{mkTensor(a.Shape, false)}
 	}
-	x := mkTensor(a.Shape, a.Grad)
-	if a.Grad {
-		if err := tensor.BackPropagate(x.Scale(2)); err != nil {
-			panic(err)
-		}
+	if !a.Grad {
+		return lifeTensor(a.Shape, false, a.Life)
+	}
+	x := mkTensor(a.Shape, true)
+	if err := tensor.BackPropagate(x.Scale(2)); err != nil {
+		panic(err)
 	}
 	return x
+}
+
+// arg builds tensor argument k; an alias (Kind 3) resolves to prev, the tensor object that
+// precedes it in the call, when the recorded shape matches.
+func (c C09Case) arg(k int, prev tensor.Tensor) tensor.Tensor {
+	a := c.t(k)
+	if a.Kind == 3 {
+		if prev != nil && ref.EqShape(prev.Shape(), a.Shape) {
+			return prev
+		}
+		a.Kind = 0
+	}
+	return a.build()
 }
 
 func (c C09Case) conf() *tensor.Config {
@@ -283,6 +342,7 @@ type outcome struct {
 	isTensor bool // the entry point returns a tensor
 	zero     bool // non-tensor result is its zero value / nil
 	note     string
+	recv     tensor.Tensor // the receiver of a Tensor method call
 }
 
 type expect struct {
@@ -356,7 +416,7 @@ func toRefIdx(c C09Case) []ref.Range {
 // binarySpec: other operand must be a library tensor and shapes must satisfy rel.
 func binarySpec(c C09Case, rel func(a, b []int) ([]int, error)) expect {
 	o := c.t(0)
-	if o.Kind != 0 {
+	if !o.isLib() {
 		return expect{valid: false}
 	}
 	s, err := rel(c.Recv, o.Shape)
@@ -454,6 +514,18 @@ func drawOther(t *rapid.T, near []int) TArg {
 	return TArg{Kind: 0, Shape: perturbShape(t, near)}
 }
 
+// drawOtherOrSame is drawOther for the operand of a binary method: sometimes the receiver itself.
+func drawOtherOrSame(t *rapid.T, recv []int) TArg {
+	if rapid.IntRange(0, 9).Draw(t, "sameobject") == 0 {
+		return TArg{Kind: 3, Shape: ref.Cp(recv)}
+	}
+	a := drawOther(t, recv)
+	if a.Kind == 0 {
+		a.Life = drawLife(t)
+	}
+	return a
+}
+
 func drawHostileDims(t *rapid.T, near []int) ([]int, bool) {
 	switch rapid.IntRange(0, 5).Draw(t, "dimsmode") {
 	case 0:
@@ -518,7 +590,7 @@ func drawConf(t *rapid.T) int {
 	return rapid.IntRange(0, 5).Draw(t, "confany")
 }
 
-func recvOf(c C09Case) tensor.Tensor { return mkTensor(c.Recv, c.k(9) == 1) }
+func recvOf(c C09Case) tensor.Tensor { return lifeTensor(c.Recv, c.k(9) == 1, c.k(8)) }
 
 func init() {
 	/* ----- constructors ----- */
@@ -588,6 +660,11 @@ func init() {
 				} else {
 					c.T = append(c.T, drawOther(t, base))
 				}
+				if k := len(c.T) - 1; k > 0 && c.T[k].Kind == 0 && c.T[k-1].isLib() && rapid.IntRange(0, 5).Draw(t, "sameobject") == 0 {
+					c.T[k] = TArg{Kind: 3, Shape: ref.Cp(c.T[k-1].Shape)}
+				} else if c.T[k].Kind == 0 {
+					c.T[k].Life = drawLife(t)
+				}
 			}
 			if rapid.IntRange(0, 9).Draw(t, "nilslice") == 0 {
 				c.T = nil
@@ -596,15 +673,17 @@ func init() {
 		},
 		call: func(c C09Case) outcome {
 			var ts []tensor.Tensor
-			for _, a := range c.T {
-				ts = append(ts, a.build())
+			var prev tensor.Tensor
+			for k := range c.T {
+				prev = c.arg(k, prev)
+				ts = append(ts, prev)
 			}
 			return tOut(tensor.Concat(ts, c.i(0)))
 		},
 		spec: func(c C09Case) expect {
 			var rs []ref.T
 			for _, a := range c.T {
-				if a.Kind != 0 {
+				if !a.isLib() {
 					return expect{valid: false}
 				}
 				rs = append(rs, refT(a.Shape))
@@ -667,11 +746,19 @@ func init() {
 				c.Recv = drawRecv(t)
 				c.K = make([]int, 10)
 				c.K[9] = rapid.IntRange(0, 1).Draw(t, "recvtracked")
+				if name != "Gradient" {
+					c.K[8] = drawLife(t)
+				}
 				if gen != nil {
 					gen(t, c)
 				}
 			},
-			call: func(c C09Case) outcome { return call(recvOf(c), c) },
+			call: func(c C09Case) outcome {
+				x := recvOf(c)
+				o := call(x, c)
+				o.recv = x
+				return o
+			},
 			spec: spec})
 	}
 	always := func(c C09Case) expect { return expect{valid: true} }
@@ -758,11 +845,11 @@ func init() {
 			c.T = []TArg{{Kind: 0, Shape: src}}
 		} else {
 			c.Idx, c.IdxNil = drawHostileIdx(t, c.Recv)
-			c.T = []TArg{drawOther(t, c.Recv)}
+			c.T = []TArg{drawOtherOrSame(t, c.Recv)}
 		}
-	}, func(x tensor.Tensor, c C09Case) outcome { return tOut(x.Patch(c.idx(), c.t(0).build())) },
+	}, func(x tensor.Tensor, c C09Case) outcome { return tOut(x.Patch(c.idx(), c.arg(0, x))) },
 		func(c C09Case) expect {
-			if c.t(0).Kind != 0 {
+			if !c.t(0).isLib() {
 				return expect{valid: false}
 			}
 			_, err := ref.PatchOffsets(toRefIdx(c), c.t(0).Shape, c.Recv)
@@ -913,9 +1000,9 @@ func init() {
 				return outcome{tensor: y, isTensor: true}
 			}, sameShape)
 	}
-	binGen := func(t *rapid.T, c *C09Case) { c.T = []TArg{drawOther(t, c.Recv)} }
+	binGen := func(t *rapid.T, c *C09Case) { c.T = []TArg{drawOtherOrSame(t, c.Recv)} }
 	binMethod := func(name string, call func(x, u tensor.Tensor) (tensor.Tensor, error), rel func(a, b []int) ([]int, error)) {
-		method(name, binGen, func(x tensor.Tensor, c C09Case) outcome { return tOut(call(x, c.t(0).build())) },
+		method(name, binGen, func(x tensor.Tensor, c C09Case) outcome { return tOut(call(x, c.arg(0, x))) },
 			func(c C09Case) expect { return binarySpec(c, rel) })
 	}
 	binMethod("Eq", func(x, u tensor.Tensor) (tensor.Tensor, error) { return x.Eq(u) }, sameShapeRel)
@@ -935,7 +1022,7 @@ func init() {
 		if len(c.Recv) > 0 && c.T[0].Kind == 0 && len(c.T[0].Shape) > 0 && rapid.Bool().Draw(t, "fixlast") {
 			c.T[0].Shape[len(c.T[0].Shape)-1] = c.Recv[len(c.Recv)-1]
 		}
-	}, func(x tensor.Tensor, c C09Case) outcome { return tOut(x.Dot(c.t(0).build())) },
+	}, func(x tensor.Tensor, c C09Case) outcome { return tOut(x.Dot(c.arg(0, x))) },
 		func(c C09Case) expect { return binarySpec(c, dotRel) })
 	method("MatMul", func(t *rapid.T, c *C09Case) {
 		binGen(t, c)
@@ -943,10 +1030,10 @@ func init() {
 			s := c.T[0].Shape
 			s[len(s)-2] = c.Recv[len(c.Recv)-1]
 		}
-	}, func(x tensor.Tensor, c C09Case) outcome { return tOut(x.MatMul(c.t(0).build())) },
+	}, func(x tensor.Tensor, c C09Case) outcome { return tOut(x.MatMul(c.arg(0, x))) },
 		func(c C09Case) expect { return binarySpec(c, matmulRel) })
 	method("Equals", binGen, func(x tensor.Tensor, c C09Case) outcome {
-		b, err := x.Equals(c.t(0).build())
+		b, err := x.Equals(c.arg(0, x))
 		return outcome{hasErr: true, err: err, zero: !b}
 	}, func(c C09Case) expect {
 		e := binarySpec(c, sameShapeRel)
@@ -1043,7 +1130,7 @@ func addComponentEntries() {
 		if rapid.IntRange(0, 9).Draw(t, "nilt") == 0 {
 			return TArg{Kind: 1}
 		}
-		return TArg{Kind: 0, Shape: perturbShape(t, near)}
+		return TArg{Kind: 0, Shape: perturbShape(t, near), Life: drawLife(t)}
 	}
 	/* ----- FC ----- */
 	addEntry(c09Entry{name: "layers.NewFC",
@@ -1208,25 +1295,29 @@ func addComponentEntries() {
 				s[i] = rapid.IntRange(1, 4).Draw(t, "d")
 			}
 			c.T = []TArg{compT(t, s), compT(t, s)}
+			if c.T[0].Kind == 0 && c.T[1].Kind == 0 && rapid.IntRange(0, 7).Draw(t, "sameobject") == 0 {
+				c.T[1] = TArg{Kind: 3, Shape: ref.Cp(c.T[0].Shape)}
+			}
 		}
 	}
 	pairSpec := func(rank int) func(c C09Case) expect {
 		return func(c C09Case) expect {
 			a, b := c.t(0), c.t(1)
-			ok := a.Kind == 0 && b.Kind == 0 && len(a.Shape) == rank && len(b.Shape) == rank && ref.EqShape(a.Shape, b.Shape)
+			ok := a.isLib() && b.isLib() && len(a.Shape) == rank && len(b.Shape) == rank && ref.EqShape(a.Shape, b.Shape)
 			return expect{valid: ok, shape: []int{}, checkShape: true}
 		}
 	}
 	addEntry(c09Entry{name: "MSE.Compute", gen: pairGen(1), spec: pairSpec(1),
-		call: func(c C09Case) outcome { return tOut(losses.NewMSE().Compute(c.t(0).build(), c.t(1).build())) }})
+		call: func(c C09Case) outcome { p := c.t(0).build(); return tOut(losses.NewMSE().Compute(p, c.arg(1, p))) }})
 	addEntry(c09Entry{name: "BCE.Compute", gen: pairGen(1), spec: pairSpec(1),
-		call: func(c C09Case) outcome { return tOut(losses.NewBCE().Compute(c.t(0).build(), c.t(1).build())) }})
+		call: func(c C09Case) outcome { p := c.t(0).build(); return tOut(losses.NewBCE().Compute(p, c.arg(1, p))) }})
 	addEntry(c09Entry{name: "CE.Compute", gen: pairGen(2), spec: pairSpec(2),
-		call: func(c C09Case) outcome { return tOut(losses.NewCE().Compute(c.t(0).build(), c.t(1).build())) }})
+		call: func(c C09Case) outcome { p := c.t(0).build(); return tOut(losses.NewCE().Compute(p, c.arg(1, p))) }})
 	addEntry(c09Entry{name: "Accuracy.Accumulate", gen: pairGen(1),
 		call: func(c C09Case) outcome {
 			m := metrics.NewAccuracy()
-			err := m.Accumulate(c.t(0).build(), c.t(1).build())
+			p := c.t(0).build()
+			err := m.Accumulate(p, c.arg(1, p))
 			r, rerr := m.Result()
 			o := outcome{hasErr: true, err: err, zero: true}
 			if rerr != nil || r < 0 || r > 1 || (err != nil && r != 0) {
@@ -1539,6 +1630,19 @@ func checkC09(c C09Case) *Failure {
 	if f := judgeC09(c, exp, o, ""); f != nil {
 		return f
 	}
+	if o.isTensor && o.tensor != nil && o.err == nil {
+		// a result is a tensor like any other: the calls every tensor supports work on it
+		ex, p, hung := guardedCall(func() outcome { return outcome{note: exerciseResult(o.tensor, o.recv)} })
+		if hung {
+			return failf("%s: a call on its result: %v", c.Entry, errHang)
+		}
+		if p != nil {
+			return failf("%s returned a result on which a further call panicked: %v", c.Entry, p)
+		}
+		if ex.note != "" {
+			return failf("%s returned a result that is not well-formed: %s", c.Entry, ex.note)
+		}
+	}
 	gotErr := o.err != nil
 	evid.Eval()
 	evid.Class("C09.entry=" + c.Entry)
@@ -1552,6 +1656,48 @@ func checkC09(c C09Case) *Failure {
 		evid.NonTrivial(c)
 	}
 	return nil
+}
+
+// exerciseResult makes the calls every tensor supports on a returned tensor y, ending with a
+// back-propagation from it; recv (may be nil) is the receiver y was computed from.
+func exerciseResult(y, recv tensor.Tensor) string {
+	s := y.Shape()
+	if y.NElems() != ref.Prod(s) {
+		return fmt.Sprintf("NElems() = %d for Shape() = %v", y.NElems(), s)
+	}
+	if _, err := y.At(make([]int, len(s))...); err != nil {
+		return fmt.Sprintf("At(first element) failed: %v", err)
+	}
+	if y.GradContext() == nil {
+		return "GradContext() = nil"
+	}
+	_ = y.Gradient()
+	_ = y.Sum()
+	z := y.Scale(1)
+	if z == nil {
+		return "Scale(1) = nil"
+	}
+	if _, err := y.Add(y); err != nil {
+		return fmt.Sprintf("Add with itself failed: %v", err)
+	}
+	if _, err := y.Slice(nil); err != nil {
+		return fmt.Sprintf("Slice(nil) failed: %v", err)
+	}
+	if _, err := y.Eq(y); err != nil {
+		return fmt.Sprintf("Eq with itself failed: %v", err)
+	}
+	if err := tensor.BackPropagate(z); err != nil {
+		return fmt.Sprintf("BackPropagate from a value computed from it failed: %v", err)
+	}
+	for _, x := range []tensor.Tensor{y, recv} {
+		if x == nil {
+			continue
+		}
+		if g := x.Gradient(); g != nil && !ref.EqShape(g.Shape(), x.Shape()) {
+			return fmt.Sprintf("after BackPropagate a tensor of shape %v has a gradient of shape %v", x.Shape(), g.Shape())
+		}
+	}
+	return ""
 }
 
 // judgeC09 compares one outcome with the specification.
